@@ -836,10 +836,32 @@ func (e *runtimeEnv) buildFuncNode(l *leafImpl, cfg *LeafCfg, wait time.Duration
 	case "any":
 		add(2, flyt.WithPrepFuncAny(prepAny), func(b *flyt.NodeBuilder) *flyt.NodeBuilder { return b.WithPrepFuncAny(prepAny) })
 	}
-	switch cfg.ExecS {
-	case "res":
+	// a quarter of the function-style nodes get their exec function TWICE: first a decoy in the OTHER style (it does what the real
+	// one does but hands on a value of its own), as a constructor option; then the real one through the builder setter. The last
+	// setting of a phase wins, whatever style the earlier one had.
+	decoyExec := (l.rt0.id+cfg.Budget+len(cfg.PostS)+len(cfg.Fb))%4 == 2
+	switch {
+	case cfg.ExecS == "res" && decoyExec:
+		opts = append(opts, flyt.WithExecFuncAny(func(ctx context.Context, p any) (any, error) {
+			v, err := execAny(ctx, p)
+			if err == nil {
+				return "value of a replaced exec function", nil
+			}
+			return v, err
+		}))
+		steps = append(steps, func(b *flyt.NodeBuilder) *flyt.NodeBuilder { return b.WithExecFunc(execRes) })
+	case cfg.ExecS == "any" && decoyExec:
+		opts = append(opts, flyt.WithExecFunc(func(ctx context.Context, p flyt.Result) (flyt.Result, error) {
+			r, err := execRes(ctx, p)
+			if err == nil {
+				return flyt.NewResult("value of a replaced exec function"), nil
+			}
+			return r, err
+		}))
+		steps = append(steps, func(b *flyt.NodeBuilder) *flyt.NodeBuilder { return b.WithExecFuncAny(execAny) })
+	case cfg.ExecS == "res":
 		add(3, flyt.WithExecFunc(execRes), func(b *flyt.NodeBuilder) *flyt.NodeBuilder { return b.WithExecFunc(execRes) })
-	case "any":
+	case cfg.ExecS == "any":
 		add(3, flyt.WithExecFuncAny(execAny), func(b *flyt.NodeBuilder) *flyt.NodeBuilder { return b.WithExecFuncAny(execAny) })
 	}
 	switch cfg.PostS {
